@@ -44,7 +44,6 @@ void pbt_property(Ctx &c) {
         if (x.did_solve) c.label("solve");
         if (x.did_saveload) c.label("save/load");
         if (x.excl_zero_freq) c.label("excluded_known:zero-frequency-calibration");
-        if (x.excl_unknown_rollback) c.label("excluded_known:rejected-standard-not-rolled-back");
         c.track_max("calls per case", (double)x.ncalls);
         c.track_max("invalid-class calls per case", (double)o.n_invalid);
     }
